@@ -24,8 +24,8 @@ PROPS["C16"] = {
     "level_note": "std::sort is modelled by a merge sort (values are determined, index order among ties is not compared); memmove on the sorted window is "
                   "modelled on List (stale last cell not represented); floating-point rounding is not modelled: theorems are over linear orders / the reals, "
                   "the Pearson/Spearman values are measured (1e-9 / 1e-12) against long double; NaN inputs are outside the model (IEEE != vs. order)",
-    "gen": [],
-    "lean_props": ["DspVerif.Props.C16", "DspVerif.Props.C16More"],
+    "gen": ["Cmplx", "StepsBase", "StepsArray", "StepsMedian"],
+    "lean_props": ["DspVerif.Props.C16", "DspVerif.Props.C16More", "DspVerif.Props.C16Gen"],
     "harness": [{"src": "c16.cpp", "cfg": "rel", "tol": {"corr": (1e-11, 1e-13)}}],
     "rule": "sort/median: every length 1..2000 x 10 content classes (distinct, repeated, sorted, reversed, constant, sorted/reversed with repeats, "
             "near-sorted, sawtooth, two-valued) x both directions (quick: one class per length in rotation + all classes on a length grid), "
